@@ -548,6 +548,57 @@ def add_dispatch_generator(pack):
     c.ensures("each arity is generated under a recur point of its own loop that carries that arity's own variadic-ness (not the function's): recur inside a fixed arity "
               "passes its arguments on as they are, recur inside the variadic arity unrolls the new rest value", recur_post)
 
+    # ---- the same for the arities of a deftype / reify method: recur inside one arity of a multi-arity method re-enters that arity
+    def tsetup(eng, st):
+        msetup(eng, st)
+        for c_ in (nodes.DefTypeMethod, nodes.DefTypeMethodArity, nodes.Binding):
+            eng.class_id(c_)
+        eng.field_types[("DefTypeMethodArity", "is_variadic")] = lambda v: V.is_bool(v)
+        eng.field_types[("DefTypeMethod", "is_variadic")] = lambda v: V.is_bool(v)
+        eng.field_types[("DefTypeMethodArity", "name")] = lambda v: V.is_str(v)
+        eng.field_types[("DefTypeMethod", "name")] = lambda v: V.is_str(v)
+        eng.field_types[("Binding", "name")] = lambda v: V.is_str(v)
+        GC = gen.GeneratorContext
+        eng.method_models[(GC, "new_this")] = Model("GeneratorContext.new_this", lambda e, s, a, k: iter([(s, e.alloc(s, NullCM))]))
+        st_ = Model("GeneratorContext.symbol_table (some table)", lambda e, s, a, k: iter([(s, e.alloc(s, SymbolTableStandin))]))
+        st_.is_property = True
+        eng.method_models[(GC, "symbol_table")] = st_
+        eng.class_id(SymbolTableStandin)
+        eng.method_models[(SymbolTableStandin, "new_symbol")] = Model("SymbolTable.new_symbol", lambda e, s, a, k: iter([(s, None)]))
+        eng.models[id(gen.munge)] = Model("munge (some identifier)", lambda e, s, a, k: iter([(s, SV(V.mk_str(z3.String(V.fresh_name("munged")))))]))
+        eng.models[id(gen.genname)] = Model("genname (some identifier)", lambda e, s, a, k: iter([(s, SV(V.mk_str(z3.String(V.fresh_name("genname")))))]))
+        eng.models[id(gen.sym.symbol)] = Model("sym.symbol (some symbol)", lambda e, s, a, k: iter([(s, SV(V.fresh_val("this_sym")))]))
+        eng.models[id(gen.ast_FunctionDef)] = Model("ast_FunctionDef (opaque)", lambda e, s, a, k: iter([(s, SV(V.fresh_val("method_def")))]))
+        eng.models[id(_ast.arguments)] = Model("ast.arguments (opaque)", lambda e, s, a, k: iter([(s, SV(V.fresh_val("arguments")))]))
+        eng.models[id(_ast.arg)] = Model("ast.arg (opaque)", lambda e, s, a, k: iter([(s, SV(V.fresh_val("arg")))]))
+        eng.models[id(gen.chain)] = Model("itertools.chain (opaque: only builds argument and decorator lists)", lambda e, s, a, k: iter([(s, ())]))
+        eng.models[id(gen.__dict__["__kwargs_support_decorator"])] = Model("__kwargs_support_decorator (opaque)", lambda e, s, a, k: iter([(s, ())]))
+
+    class SymbolTableStandin:
+        def new_symbol(self, *a):
+            raise NotImplementedError
+
+    c = pack.contract("basilisp.lang.compiler.generator:__deftype_method_arity_to_py_ast")
+    c.param("ctx", OBJ(gen.GeneratorContext)).param("node", OBJ(nodes.DefTypeMethod)).param("arity", OBJ(nodes.DefTypeMethodArity))
+    c.param_value("method_name", lambda eng, st: None)
+    c.setup(tsetup)
+    c.requires("an arity node of this method",
+               lambda a: z3.And(_ops.eq_term(None, fld_(a.pre.st, a.arity, "op"), a.eng.lift(nodes.NodeOp.DEFTYPE_METHOD_ARITY, a.pre.st)),
+                                fld_(a.pre.st, a.node, "name") == fld_(a.pre.st, a.arity, "name"),
+                                V.is_ref(fld_(a.pre.st, a.arity, "this_local")), V.cls_of(V.Val.a(fld_(a.pre.st, a.arity, "this_local"))) == a.eng.class_id(nodes.Binding)))
+    c.raises()
+
+    def method_recur_post(a):
+        pts = a.post.st.ghost.get("recur_points", [])
+        if len(pts) != 1:
+            return z3.BoolVal(False)
+        return z3.And(pts[0][0] == fld_(a.pre.st, a.arity, "loop_id"), pts[0][1] == fld_(a.pre.st, a.arity, "is_variadic"))
+
+    c.ensures("a method arity is generated under a recur point of its own loop that carries that arity's own variadic-ness (not the method's, which is true as soon as "
+              "*any* arity is variadic): recur inside a fixed arity passes its arguments on as they are", method_recur_post)
+    c.replay(lambda m, ctx, ob: METHOD_RECUR_REPLAY)
+    c.replay_without_model = True
+
     c = pack.contract("basilisp.lang.compiler.generator:__fn_decorator")
     c.param_value("arities", lambda eng, st: [1, 3])
     c.param_value("has_rest_arg", lambda eng, st: True)
@@ -565,6 +616,30 @@ def add_dispatch_generator(pack):
                       V.is_ref(fld_(k1, "value")), V.cls_of(V.Val.a(fld_(k1, "value"))) == a.eng.class_id(_ast.Constant), fld_(fld_(k1, "value"), "value") == MFA)
 
     c.ensures("the emitted call is _basilisp_fn(arities=..., max_fixed_arity=<that number>)", deco_post)
+
+
+METHOD_RECUR_REPLAY = r'''
+import subprocess, sys, tempfile, os
+src = """(ns c08.method-recur)
+(definterface I
+  (m [n acc])
+  (m [n acc & more]))
+(deftype T []
+  I
+  (m [this n acc] (if (zero? n) acc (recur (dec n) (cons n acc))))
+  (m [this n acc & more] (if (zero? n) [acc more] (recur (dec n) (cons n acc) more))))
+(println (try (pr-str (.m (T) 3 nil)) (catch python/Exception e (str "raised " (python/type e)))))
+(println (try (pr-str (.m (T) 2 nil :x :y)) (catch python/Exception e (str "raised " (python/type e)))))
+"""
+d = tempfile.mkdtemp()
+p = os.path.join(d, "method_recur.lpy")
+open(p, "w").write(src)
+out = subprocess.run([sys.executable, "-m", "basilisp.cli", "run", p], capture_output=True, text=True, timeout=300)
+lines = [l for l in out.stdout.strip().splitlines() if l.strip()]
+print("\\n".join(lines[-2:]) if lines else out.stderr[-400:])
+want = ["(1 2 3)", "[(1 2) (:x :y)]"]
+print("REPRODUCED" if lines[-2:] != want else "not reproduced")
+'''
 
 
 VAR_CALL_REPLAY = r'''
